@@ -28,12 +28,13 @@ type Policy struct {
 	// mode "pct" (probabilistic concurrency testing, Burckhardt et al.): goroutine number i (creation
 	// order) gets priority Prio[i mod len]; the runnable goroutine with the highest priority always runs;
 	// at the scheduling points listed in Preempt the running goroutine drops below everyone else.
-	Prio    []int  `json:"prio,omitempty"`
-	FairAge int    `json:"fairage,omitempty"` // overrides the number of scheduling points a runnable goroutine may be passed over (default 48)
-	Lifo    bool   `json:"lifo,omitempty"`    // default choice = the most recently created runnable goroutine (depth-first) instead of the oldest
-	Park    []bool `json:"park,omitempty"`    // mode preempt: whether the i-th preemption also stalls the goroutine until nothing else can run
-	Preempt []int  `json:"preempt,omitempty"` // step numbers at which the running goroutine is preempted (mode preempt)
-	Delays  []int  `json:"delays,omitempty"`  // jitter: delay classes, indexed by call count
+	Prio     []int  `json:"prio,omitempty"`
+	MaxSteps int    `json:"maxsteps,omitempty"` // overrides the livelock bound for cases that legitimately need more scheduling points
+	FairAge  int    `json:"fairage,omitempty"`  // overrides the number of scheduling points a runnable goroutine may be passed over (default 48)
+	Lifo     bool   `json:"lifo,omitempty"`     // default choice = the most recently created runnable goroutine (depth-first) instead of the oldest
+	Park     []bool `json:"park,omitempty"`     // mode preempt: whether the i-th preemption also stalls the goroutine until nothing else can run
+	Preempt  []int  `json:"preempt,omitempty"`  // step numbers at which the running goroutine is preempted (mode preempt)
+	Delays   []int  `json:"delays,omitempty"`   // jitter: delay classes, indexed by call count
 }
 
 const (
@@ -178,6 +179,14 @@ func (s *S) retire() {
 	s.aborted = true
 	s.cond.Broadcast()
 	s.mu.Unlock()
+}
+
+// maxSteps is MaxSteps unless the policy of the case sets its own bound (large graphs).
+func (s *S) maxSteps() int {
+	if s.pol.MaxSteps > 0 {
+		return s.pol.MaxSteps
+	}
+	return MaxSteps
 }
 
 // MaxSteps bounds the scheduling points of one case; beyond it the case is a livelock under a
@@ -333,7 +342,7 @@ func (s *S) delay() {
 
 func (s *S) Yield(site string) {
 	if s.jitter {
-		if s.calls.Load() > MaxSteps*4 {
+		if s.calls.Load() > int64(s.maxSteps())*4 {
 			s.mu.Lock()
 			s.livelock = true
 			s.cond.Broadcast()
@@ -355,7 +364,7 @@ func (s *S) Yield(site string) {
 	s.step++
 	s.Steps++
 	s.sameRun++
-	if s.step > MaxSteps {
+	if s.step > s.maxSteps() {
 		s.livelock = true
 		s.cond.Broadcast()
 		zombies.Store(id, struct{}{})
